@@ -1354,8 +1354,50 @@ pub fn limb_sparse(pr: &mut Prng, limbs: usize) -> BigUint {
     v
 }
 
+/// A dividend aimed at the long division's intermediate state: D = (M*p + R) * 2^(64 j) + low with
+/// a chosen partial quotient M and a chosen running remainder R < p (limb patterns, or top limb tied
+/// with the modulus's and small lower limbs), so that after the top limbs have been divided the
+/// remainder in flight is exactly R.
+pub fn division_aimed(pr: &mut Prng, p: &BigUint) -> BigUint {
+    let j = pr.below(4) as u32;
+    let mut pd = p.to_u64_digits();
+    pd.resize(4, 0);
+    let r = match pr.below(4) {
+        0 => limb_patterns(pr, p) % p,
+        1 | 2 => {
+            // top limb tied with the modulus, next limb small or zero, rest random
+            let l2 = match pr.below(3) {
+                0 => 0u64,
+                1 => pr.next_u64() >> (1 + pr.below(40) as u32),
+                _ => pd[2].wrapping_sub(1 + pr.below(1 << 30)),
+            };
+            let v = limbs_to_big(&[pr.next_u64(), pr.next_u64(), l2, pd[3]]);
+            v % p
+        }
+        _ => p - 1u32 - limb_sparse(pr, 2),
+    };
+    let mbits = 512 - 256 - 64 * j;
+    let m = match pr.below(3) {
+        0 => limb_sparse(pr, (mbits / 64) as usize),
+        _ => from_be(&pr.bytes((mbits / 8) as usize)),
+    } % (BigUint::one() << mbits);
+    let low = if j == 0 { BigUint::zero() } else { from_be(&pr.bytes((8 * j) as usize)) };
+    (((m * p) + r) << (64 * j)) + low
+}
+
 fn gen_bytes(pr: &mut Prng, p: &BigUint, len: usize) -> Vec<u8> {
     let two512 = BigUint::one() << 512;
+    if len > 32 && pr.chance(1, 6) {
+        let v: BigUint = division_aimed(pr, p) % &two512;
+        let full = v.to_bytes_be();
+        let mut out = vec![0u8; len];
+        if full.len() >= len {
+            out.copy_from_slice(&full[full.len() - len..]);
+        } else {
+            out[len - full.len()..].copy_from_slice(&full);
+        }
+        return out;
+    }
     let v: BigUint = match pr.below(15) {
         12 | 13 => limb_sparse(pr, (len + 7) / 8),
         14 => {
@@ -1465,13 +1507,11 @@ fn gen_rng_mode(pr: &mut Prng) -> RngMode {
                 6 => &two512 - 1u32,
                 7 => (BigUint::one() << 256) - 1u32,
                 8 => BigUint::one() << 256,
-                _ => {
-                    if pr.chance(1, 2) {
-                        limb_sparse(pr, 8)
-                    } else {
-                        (p * from_be(&pr.bytes(31))) + pr.below(2)
-                    }
-                }
+                _ => match pr.below(3) {
+                    0 => limb_sparse(pr, 8),
+                    1 => division_aimed(pr, p),
+                    _ => (p * from_be(&pr.bytes(31))) + pr.below(2),
+                },
             };
             RngMode::Words(words_of(&(v % &two512)))
         }
